@@ -8,7 +8,7 @@ import (
 	"verif/internal/props/pcommon"
 )
 
-const quickN, thoroughN = 3000, 250000
+const quickN, thoroughN = 30000, 2000000
 
 const rule = "programs: 2-4 objects (tables, and userdata made by a host function) with metatables drawn from random event subsets, shared or distinct metatables, shared or distinct-but-equivalent comparison handlers, " +
 	"__index/__newindex as function or table chained to earlier objects and up to the loop limit; every handler first emits (event@object, operands in the order received); " +
